@@ -7,7 +7,7 @@ use crate::tape::Tape;
 use std::collections::{BTreeMap, BTreeSet};
 
 pub const ET_NAMES: [&str; 6] = ["User", "Group", "Doc", "Folder", "Team", "Org"];
-pub const ATTR_NAMES: [&str; 14] = ["name", "age", "owner", "manager", "flag", "ip", "when", "score", "nested", "items", "if", "has space", "peers", "ttl"];
+pub const ATTR_NAMES: [&str; 18] = ["name", "age", "owner", "manager", "flag", "ip", "when", "score", "nested", "items", "if", "has space", "peers", "ttl", "type", "id", "fn", "arg"];
 pub const ACTION_IDS: [&str; 5] = ["view", "edit", "delete", "a b", "share"];
 pub const TAG_KEYS: [&str; 4] = ["k", "color", "", "a b"];
 pub const STRS: [&str; 8] = ["", "a", "abc", "a*c", "x\"y", "\u{1F600}", "k", "color"];
